@@ -995,6 +995,17 @@ func identityDriver(a *Args) {
 			case "canonical+lower":
 				addU("X-Inverting-Proxy-User-ID", "evil1@example.com")
 				addU("x-inverting-proxy-user-id", "evil2@example.com")
+			case "asserted-first": // the client repeats the identity the proxy will assert, then adds another
+				addU("X-Inverting-Proxy-User-ID", asserted)
+				addU("X-Inverting-Proxy-User-ID", "evil-after@example.com")
+			case "asserted-last":
+				addU("X-Inverting-Proxy-User-ID", "evil-before@example.com")
+				addU("x-inverting-proxy-user-id", asserted)
+			case "empty-first":
+				addU("X-Inverting-Proxy-User-ID", "")
+				addU("X-Inverting-Proxy-User-ID", "evil-after-empty@example.com")
+			case "asserted-only":
+				addU("X-Inverting-Proxy-User-ID", asserted)
 			}
 			addA := func(name, v string) { hdrs = append(hdrs, hpair{name, v}); sentAuth = append(sentAuth, v) }
 			switch c.Auth {
